@@ -202,6 +202,22 @@ def ord10(P, R, L):
     R.check("ORD-10", TASK + "|notify-after-clear", ok2, "%s:%d" % (b.file, b.line_lo),
             "notify_all is called after the flag is cleared on every path to return",
             "notify_all sites at lines %s" % [n.line for n in notifies])
+    # once the flag is cleared the task touches no file any more: Drop for DB waits on this flag before it releases the LOCK
+    # file, and remove_obsolete_files drops the DB mutex while it unlinks
+    FSM = ("fs::traits::FileSystem::create_file", "fs::traits::FileSystem::remove_file", "fs::traits::FileSystem::rename",
+           "fs::traits::FileSystem::remove_dir", "fs::traits::FileSystem::remove_dir_all")
+    late = []
+    for sbk in sblocks:
+        for c in b.calls():
+            if b.is_cleanup(c.bb) or c.bb == sbk or c.bb not in b.reachable(sbk):
+                continue
+            if c.name == SCHEDULE or c.name == SHOULD:
+                continue
+            if P.site_reaches(c, lambda x: (x.declared_name or "") in FSM or x.name == "db::DB::remove_obsolete_files", True):
+                late.append("%s at line %s" % (c.name.rsplit("::", 1)[1], c.line))
+    R.check("ORD-10", TASK + "|no-file-work-after-clearing-the-flag", not late, "%s:%d" % (b.file, b.line_lo),
+            "after background_compaction_scheduled = false the task reaches no file-system mutation (garbage collection included)",
+            "; ".join(sorted(set(late))))
     # who writes the flag
     for p, bd in sorted(P.bodies.items()):
         for (bb, i, st) in field_stores(bd, "background_compaction_scheduled"):
